@@ -55,6 +55,28 @@ def main():
                         ratios[cls.__name__] = max(ratios.get(cls.__name__, 0.0), worst)
                         if worst > K:
                             fail("global-error-exceeds-K*tol", method=cls.__name__, tol=tol, span=(t0, tf), dt=dt0, ratio=worst)
+    # strongly decaying solution with rtol dominating atol: the error scale must follow |y| down (per-step tolerance, no stale scaling)
+    A = np.array([[-3.0, 1.0], [-1.0, -3.0]])
+    for cls in adaptive:
+        if cls.__name__.startswith(("Radau", "Lobatto", "HeunEuler")):
+            continue
+        y0 = np.array([800.0, -600.0])
+        a = de.OdeSystem(lambda t, y: A @ y, y0=y0, t=(0.0, 5.0), dt=1e-2, rtol=1e-6, atol=1e-11)
+        a.method = cls
+        try:
+            a.integrate()
+        except Exception as e:
+            fail("raises", method=cls.__name__, problem="decay", cause=repr(e.__cause__)[:90])
+            continue
+        cases += 1
+        t, y = np.asarray(a.t), np.asarray(a.y)
+        worst = 0.0
+        for ti, yi in zip(t, y):
+            ex = scipy.linalg.expm(A * ti) @ y0
+            worst = max(worst, float(np.max(np.abs(yi - ex)) / (1e-11 + 1e-6 * np.max(np.abs(ex)))))
+        ratios[cls.__name__ + ":decay"] = worst
+        if worst > K:
+            fail("global-error-exceeds-K*tol", method=cls.__name__, problem="decay", ratio=worst)
     # closed-form nonlinear problem: y' = -y + t*y^2, y = 1/(t + 1 + C e^t)
     for cls in adaptive:
         for tol in tols:
